@@ -763,7 +763,7 @@ func (view *View) Limit(ctx context.Context, scope *ReferenceScope, clause parse
 		}
 
 		if 100 < percentage {
-			limit = 100
+			limit = view.RecordLen()
 		} else if percentage < 0 {
 			limit = 0
 		} else {
